@@ -22,6 +22,7 @@ EXPLANATION = __doc__
 TRUSTED = ["rustc / extractor", "to_be_bytes/to_le_bytes/from_*_bytes are the byte encodings (core)", "the keystream operation is position preserving and both ends share it (C09)"]
 NOT_DECIDED = ["keystream equality of the two ends (C09)"]
 FLOORS = {"encoder": 7, "decoder": 4, "roundtrip": 4, "stream-step": 5}
+IC = "wrath_header::inner_crypto::InnerCrypto"
 ENC = "wrath_header::encrypt::ServerEncrypterHalf"
 DEC = "wrath_header::decrypt::ClientDecrypterHalf"
 T_SHORT_MAX = 0x7FFF
@@ -87,6 +88,8 @@ def byte_form(e, var):
         return ("const", e[1])
     if e[0] == "idx" and e[1][0] == "tobe" and e[1][2] == var and e[2][0] == "int":
         return (e[2][1], 0, 0xFF, e[1][1])
+    if e[0] == "byte" and e[1] == var and 0 <= e[2] <= 3:
+        return (3 - e[2], 0, 0xFF, "u32")
     if e[0] in ("or", "and"):
         xs = list(e[1])
         cs = [x for x in xs if x[0] == "int"]
@@ -125,25 +128,19 @@ def check(ctx, rep):
         return
     sw_bb, T, long_t, short_t = th
     rep.check(T == T_SHORT_MAX + 1, "encoder", fn, "threshold", "long form iff size >= 0x%X" % T, "long form is chosen iff size >= 0x%X; the statement requires 4 bytes iff size <= 0x7FFF" % T, body.loc(sw_bb))
-    # per-arm final value of *self and of the returned slice (join inputs)
+    # per-arm view: the function restricted to one side of the size test (the other successor
+    # of the test is pruned), so each arm has its own straight-line final state and result
     self_root = ("deref", ("param", 1))
-    ret_key = None
-    for (bb, key), ins in se.phi_inputs.items():
-        if key == ("local", 0) and bb != "ret":
-            ret_key = (bb, key)
-    st_key = [(bb, key) for (bb, key) in se.phi_inputs if key == self_root and bb != "ret"]
-    if ret_key is None or not st_key:
-        rep.violation("encoder", fn, "shape", "the two forms do not join in a single return", body.loc())
-        return
-    rets = se.phi_inputs[ret_key]
-    sts = se.phi_inputs[st_key[0]]
     arms = {}
-    for pred in rets:
-        which = "long" if cfg.must_pass_edge(body, (sw_bb, long_t), pred) else ("short" if cfg.must_pass_edge(body, (sw_bb, short_t), pred) else None)
-        arms[which] = (rets[pred], sts.get(pred))
-    if set(arms) != {"long", "short"}:
-        rep.violation("encoder", fn, "shape", "cannot attribute the two return values to the two arms", body.loc())
-        return
+    arm_se = {}
+    for which, tgt in (("long", long_t), ("short", short_t)):
+        vn = fb.pruned(fn, which, {sw_bb: tgt})
+        ase = ctx.pure.run(vn) if vn else None
+        if ase is None or ase.ret is None:
+            rep.violation("encoder", fn, "shape", "cannot evaluate the %s arm on its own" % which, body.loc())
+            return
+        arms[which] = (ase.ret, ase.param_effects().get(1))
+        arm_se[which] = ase
     sh_field = [i for i, f in enumerate(fb.adt_fields(ENC)) if fb.ty(f["ty"]).k == "array"]
     if len(sh_field) != 1:
         rep.violation("encoder", fn, "shape", "ServerEncrypterHalf has no single output buffer field")
@@ -153,27 +150,43 @@ def check(ctx, rep):
     op = ("param", 3)
 
     def be(k):
-        return ("idx", ("tobe", "u32", size), I(k))
+        return ("byte", size, 3 - k)
 
     def le(k):
-        return ("idx", ("tole", "u16", op), I(k))
+        return ("byte", op, k)
 
     want_plain = {
         "short": (be(2), be(3), le(0), le(1)),
         "long": (("or", frozenset([be(1), I(MARK)])), be(2), be(3), le(0), le(1)),
     }
+    cf = [i for i, f in enumerate(fb.adt_fields(ENC)) if fb.ty(f["ty"]).peel_refs().path == IC]
+
+    def raw_application(ase, E):
+        """E = after<raw(receiver, &mut bytes)>(plain): the half's raw operation on its own
+        stream - Half::encrypt(self, ..) or InnerCrypto::apply(self.<stream field>, ..)"""
+        if not (E[0] == "after" and util.is_call(E[1]) and E[2] == 1):
+            return False
+        info = ase.term_info.get(E[1][3][1], {})
+        la = info.get("locargs", (("?",),))[0]
+        if E[1][1] == ENC + "::encrypt":
+            return la[0] == "ref" and la[1] == self_root
+        if E[1][1] == IC + "::apply":
+            return len(cf) == 1 and la[0] == "ref" and la[1] == ("field", self_root, cf[0])
+        return False
+
     enc_bytes = {}
     for arm in ("short", "long"):
         retv, st = arms[arm]
+        ase = arm_se[arm]
         n = len(want_plain[arm])
         base, fu = field_updates(st) if st is not None else (None, {})
         good = False
         desc = "?"
         raw_ok = False
         whole = fu.get(shf)
-        if whole is not None and whole[0] == "after" and util.is_call(whole[1], ENC + "::encrypt") and whole[2] == 1 and fb.ty(fb.adt_fields(ENC)[shf]["ty"]).len == n:
+        if whole is not None and raw_application(ase, whole) and fb.ty(fb.adt_fields(ENC)[shf]["ty"]).len == n:
             # the encrypted header array is assigned to the output buffer as a whole
-            plain = arith.norm(whole[3])
+            plain = arith.byte_canon(arith.norm(whole[3]))
             raw_ok = True
             if plain[0] == "arr":
                 enc_bytes[arm] = plain[1]
@@ -197,8 +210,8 @@ def check(ctx, rep):
             if ok_idx and len(srcs) == 1 and not extra:
                 E = next(iter(srcs))
                 # E = after<half.encrypt(self, &mut header)>(header array)
-                if E[0] == "after" and util.is_call(E[1], ENC + "::encrypt") and E[2] == 1:
-                    plain = arith.norm(E[3])
+                if raw_application(ase, E):
+                    plain = arith.byte_canon(arith.norm(E[3]))
                     raw_ok = True
                     if plain[0] == "arr":
                         enc_bytes[arm] = plain[1]
@@ -209,8 +222,8 @@ def check(ctx, rep):
         # returned slice = exactly those n bytes
         rv = retv
         good = False
-        if arm == "long":
-            good = rv[0] == "ref" and rv[1] == ("field", self_root, shf) and fb.ty(fb.adt_fields(ENC)[shf]["ty"]).len == n
+        if rv[0] == "ref" and rv[1] == ("field", self_root, shf) and fb.ty(fb.adt_fields(ENC)[shf]["ty"]).len == n:
+            good = True
         else:
             if rv[0] == "ref" and rv[1][0] == "subslice" and rv[1][1] == ("field", self_root, shf) and rv[1][2:] == (0, n, False):
                 good = True
@@ -219,8 +232,8 @@ def check(ctx, rep):
                 lo, hi = [util.numnorm(y) for y in x[2][1][4]]
                 good = lo[:2] == ("int", 0) and hi[:2] == ("int", n)
         rep.check(good, "encoder", fn, arm + "-returned-slice", "returns exactly the %d emitted bytes" % n, "%s form does not return exactly the first %d bytes of the output buffer" % (arm, n), body.loc())
-    n_raw = sum(1 for i in se.term_info.values() if i.get("k") == "call" and i["name"] == ENC + "::encrypt")
-    rep.check(n_raw == 2, "stream-step", fn, "one-raw-per-arm", "each arm applies the raw operation once", "%d raw operations in the encoder" % n_raw, body.loc())
+    n_raw = {arm: sum(1 for i in arm_se[arm].term_info.values() if i.get("k") == "call" and i["name"] in (ENC + "::encrypt", IC + "::apply")) for arm in arm_se}
+    rep.check(all(v == 1 for v in n_raw.values()), "stream-step", fn, "one-raw-per-arm", "each arm applies the raw operation once", "raw operations per arm of the encoder: %s" % n_raw, body.loc())
 
     # ------------------------------------------------------------------ decoder: attempt
     fa = DEC + "::attempt_decrypt_server_header"
@@ -270,11 +283,13 @@ def check(ctx, rep):
                         hi = [k for k, v in enumerate(vs) if v["name"] == "Header"][0]
                         if r[0] == "agg" and r[3] == hi and r[4] and r[4][0][0] == "agg":
                             fields = [f["name"] for f in fb.adt_fields("wrath_header::ServerHeader")]
-                            got = {f: arith.norm(v, env) for f, v in zip(fields, r[4][0][4])}
-                            dec_terms["short"] = got
+                            got = {f: arith.bv(v, env) for f, v in zip(fields, r[4][0][4])}
                             d_ = lambda k: ("idx", S("D"), I(k))
-                            want = {"size": ("frombe", "u16", ("arr", (d_(0), d_(1)))), "opcode": ("fromle", "u16", ("arr", (d_(2), d_(3))))}
-                            ok_small = got == want
+                            # byte vectors, least significant first: size = BE16(d0, d1), opcode = LE16(d2, d3)
+                            want = {"size": (d_(1), d_(0)), "opcode": (d_(2), d_(3))}
+                            ok_small = all(got.get(f) is not None and arith.bv_trim(got[f]) == want[f] for f in want)
+                            if ok_small:
+                                dec_terms["short"] = {f: arith.bv_trim(got[f]) for f in want}
                             # the small arm stores nothing but the keystream advance
                             b_, fu = field_updates(stv) if stv is not None else (None, {})
                             ok_small = ok_small and len(fu) == 1
@@ -313,12 +328,13 @@ def check(ctx, rep):
             B = ("after", apply_calls[0]["term"], 1, ("agg", "array", None, 0, (("param", 2),)))
             env = {("field", ("param", 1), hf[0]): "H", strip(B): "B"}
             fields = [f["name"] for f in fb.adt_fields("wrath_header::ServerHeader")]
-            got = {f: arith.norm(v, env) for f, v in zip(fields, r[4])}
-            dec_terms["long"] = got
+            got = {f: arith.bv(v, env) for f, v in zip(fields, r[4])}
             h = lambda k: ("idx", S("H"), I(k))
-            want = {"size": ("frombe", "u32", ("arr", (I(0), ("and", frozenset([h(0), I(0x7F)])), h(1), h(2)))), "opcode": ("fromle", "u16", ("arr", (h(3), ("idx", S("B"), I(0)))))}
-            good = got == want
-            desc = ", ".join("%s=%s" % (k, arith.show(v)) for k, v in got.items())
+            want = {"size": (h(2), h(1), ("and", frozenset([h(0), I(0x7F)]))), "opcode": (h(3), ("idx", S("B"), I(0)))}
+            good = all(got.get(f) is not None and arith.bv_trim(got[f]) == want[f] for f in want)
+            if good:
+                dec_terms["long"] = {f: arith.bv_trim(got[f]) for f in want}
+            desc = ", ".join("%s=%s" % (k, "[%s] (low byte first)" % ", ".join(arith.show(x) for x in v) if v is not None else arith.show(arith.norm(dict(zip(fields, r[4]))[k], env))) for k, v in got.items())
         rep.check(good, "decoder", fl, "long-parse", desc, "long form is not size = BE32(0, h0 & 0x7F, h1, h2), opcode = LE16(h3, fifth byte): " + desc, lb.loc())
     # ------------------------------------------------------------------ round trip by normalisation
     if "short" in enc_bytes and "long" in enc_bytes and "short" in dec_terms and "long" in dec_terms:
@@ -341,15 +357,18 @@ def check(ctx, rep):
                     return (e[0], e[1], sub(e[2]))
                 return e
 
-            sz = sub(dt["size"])
-            opc = sub(dt["opcode"])
-            # opcode: from_le(u16)[le(op)0, le(op)1] = op
-            op_ok = opc == ("fromle", "u16", ("arr", (le(0), le(1))))
-            # size: from_be over byte forms of BE(size)
+            # decoded values as byte vectors (least significant first) over the emitted bytes
+            szv = tuple(sub(x) for x in dt["size"])
+            opv = tuple(sub(x) for x in dt["opcode"])
+            opc = ("arr", opv)
+            # opcode: bytes (le(op)0, le(op)1) = op
+            op_ok = opv == (le(0), le(1))
+            # size: byte forms of BE(size), most significant first
             ok = False
-            why = arith.show(sz)
-            if sz[0] == "frombe" and sz[2][0] == "arr":
-                bs = sz[2][1]
+            why = "[%s]" % ", ".join(arith.show(x) for x in szv)
+            sz = ("arr", szv)
+            if True:
+                bs = tuple(reversed(szv))
                 width = len(bs)
                 forms = [byte_form(b, size) for b in bs]
                 if all(f is not None for f in forms):
